@@ -198,3 +198,68 @@ pub fn cli(ctx: &Ctx) -> Stats {
         }
     })
 }
+
+/// very long records: more than 2^24 windows of one canonical k-mer / in total (accumulator width).
+/// Content is periodic so the expected counts are analytic (windows at i = r mod p are equal).
+pub fn large(ctx: &Ctx) -> Stats {
+    let mut st = Stats::new();
+    let n = ctx.pick(3u64, 10u64);
+    for i in 0..n {
+        if ctx.expired() {
+            st.truncated = true;
+            break;
+        }
+        let mut rng = Rng::keyed(ctx.seed, "c04.large", i);
+        let k = rng.usize(1, 4);
+        let units: [&[u8]; 3] = [b"A", b"AC", b"AAG"];
+        let unit = units[(i % 3) as usize];
+        // a bit more than 2^24 windows; thorough also 2^25+
+        let len = (1usize << if ctx.tier == Tier::Thorough && i % 2 == 1 { 25 } else { 24 }) + rng.usize(1000, 600_000);
+        let mut seq: Vec<u8> = (0..len).map(|j| unit[j % unit.len()]).collect();
+        // a short different tail so that a second column is populated as well
+        let tail = rng.usize(0, 50_000);
+        seq.extend(std::iter::repeat(b'C').take(tail));
+        let c = cols(k);
+        // analytic counts: enumerate window classes of the periodic part + explicit windows around the junction and tail
+        let mut exp = vec![0u64; c.codes.len()];
+        let idx: std::collections::HashMap<u64, usize> = c.codes.iter().enumerate().map(|(a, b)| (*b, a)).collect();
+        let p = unit.len();
+        let periodic_last = len - k; // last window start fully inside the periodic part
+        for r in 0..p {
+            let text: Vec<u8> = (0..k).map(|j| unit[(r + j) % p]).collect();
+            let code = model::canonical(model::encode(&text).unwrap() as u64, k);
+            exp[idx[&code]] += ((periodic_last - r) / p + 1) as u64;
+        }
+        for s in (len - k + 1)..=(seq.len() - k) {
+            let code = model::canonical(model::encode(&seq[s..s + k]).unwrap() as u64, k);
+            exp[idx[&code]] += 1;
+        }
+        let total: u64 = exp.iter().sum();
+        st.case(true, mix(i) ^ mix(len as u64));
+        st.class(&format!("windows>=2^{}", if len >= 1 << 25 { 25 } else { 24 }));
+        let case = || Json::obj().set("unit", Json::bytes(unit)).set("periodic_len", Json::u(len)).set("C_tail", Json::u(tail)).set("k", Json::u(k)).set("total_windows", Json::Int(total as i128));
+        let r = guarded(|| {
+            let cn = OligoComputer::new("u.fa".into(), "u.out".into(), k);
+            let mut cr = OligoComputer::new("u.fa".into(), "u.out".into(), k);
+            cr.set_norm(false);
+            (cn.verif_vectorise_one(&seq), cr.verif_vectorise_one(&seq))
+        });
+        match r {
+            Err(p) => st.violate(&panic_sig(&p), p, case()),
+            Ok((vn, vr)) => {
+                for j in 0..c.codes.len() {
+                    if vr[j] != exp[j] as f64 {
+                        st.violate("oligo.value.count:large", format!("column {} ({}): raw value {} but the record has {} such windows", j, c.names[j], vr[j], exp[j]), case());
+                        break;
+                    }
+                    if !frac_matches(vn[j], exp[j], total) {
+                        st.violate("oligo.value.norm:large", format!("column {} ({}): normalised value {} but count/total = {}/{}", j, c.names[j], vn[j], exp[j], total), case());
+                        break;
+                    }
+                }
+            }
+        }
+        st.sample(case());
+    }
+    st
+}
